@@ -2,12 +2,12 @@
 # usage: tools/eval_refactor.sh <set under /verif/refactors, e.g. C05a> [patch numbers "1 3" | all] [checks...]
 # Applies each behaviour-preserving patch of the set to a scratch worktree of /repo (/tmp/rf-eval, created on demand, removed
 # with tools/eval_refactor.sh --clean), runs the checks against it (LDAP3_REPO), prints any alarm (= a false alarm of the checker).
-if [ "$1" = "--clean" ]; then git -C /repo worktree remove --force /tmp/rf-eval 2>/dev/null; git -C /repo worktree prune; exit 0; fi
+if [ "$1" = "--clean" ]; then git -C /repo worktree remove --force ${RF_WT:-/tmp/rf-eval} 2>/dev/null; git -C /repo worktree prune; exit 0; fi
 set=$1; shift
 which=${1:-all}; shift
 checks="$@"
 [ -z "$checks" ] && checks="C01 C02 C03 C04 C05 C06 C07 C08 C09 C10 C11 C12 C13 C14 C15 C16 C17 C18 C19 C20"
-WT=/tmp/rf-eval
+WT=${RF_WT:-/tmp/rf-eval}
 [ -d $WT ] || git -C /repo worktree add --detach -q $WT HEAD
 cd $WT || exit 9
 git checkout -q --detach $(git -C /repo rev-parse HEAD) 2>/dev/null
